@@ -575,6 +575,33 @@ impl<T: Tok> Tok for V<T> {
     }
 }
 
+// Box<[T]> as a consensus type of its own (same wire format as Vec<T>, separate Decodable/Encodable impls)
+pub struct Bx<T>(pub Box<[T]>);
+impl Tok for Bx<u8> {
+    fn show(&self, out: &mut Toks) {
+        sb(out, &self.0)
+    }
+    fn parse(p: &mut P) -> Option<Self> {
+        Some(Bx(p.b()?.into_boxed_slice()))
+    }
+}
+impl Tok for Bx<Hash> {
+    fn show(&self, out: &mut Toks) {
+        slist(out, &self.0)
+    }
+    fn parse(p: &mut P) -> Option<Self> {
+        Some(Bx(p.list::<Hash>()?.into_boxed_slice()))
+    }
+}
+impl Tok for Bx<VarInt> {
+    fn show(&self, out: &mut Toks) {
+        slist(out, &self.0)
+    }
+    fn parse(p: &mut P) -> Option<Self> {
+        Some(Bx(p.list::<VarInt>()?.into_boxed_slice()))
+    }
+}
+
 pub fn show<T: Tok>(x: &T) -> String {
     let mut o = Vec::new();
     x.show(&mut o);
@@ -777,6 +804,9 @@ pub fn run(op: &str, args: &[&str]) -> Option<String> {
         "tx" => plain!(op, rest, Transaction),
         "header" => plain!(op, rest, BlockHeader),
         "block" => plain!(op, rest, Block),
+        "box_u8" => op_generic::<Box<[u8]>, Bx<u8>>(op, rest, Bx, |w| &w.0),
+        "box_hash" => op_generic::<Box<[Hash]>, Bx<Hash>>(op, rest, Bx, |w| &w.0),
+        "box_varint" => op_generic::<Box<[VarInt]>, Bx<VarInt>>(op, rest, Bx, |w| &w.0),
         "vec_txin" => vecty!(op, rest, TxIn),
         "vec_txout" => vecty!(op, rest, TxOut),
         "vec_varint" => vecty!(op, rest, VarInt),
